@@ -5,6 +5,18 @@ import os
 VERIF = os.path.dirname(os.path.dirname(os.path.abspath(__file__)))
 
 CHECKS = {
+    "C02": dict(
+        text="Coq theorems about a Gallina model of string_encoder.py and the matrix action: decode(encode s)=s for every width 1..64, length and "
+             "admissible state; the generated mask/shift/or routine equals the permutation on EVERY input word vector bit by bit (C02_emit_correct, "
+             "unbounded in p, w, n, x), hence the action new[j]=old[p[j]] on encoded states; 1-D variant; gather action; exact modular matrix product "
+             "for 2<=m<=2^31; least automatic width. Tie: translator T1 regenerates constants/_one_shifted/_mask_with_high_zeros/auto-width expression "
+             "(equalities re-proved each run); T3 captures every routine text the library generates in the run, parses it with a whitelist grammar and "
+             "Coq checks it equal to the model's emitted program and evaluates both on the same words; encode/decode/neighbours/apply_path/matrix "
+             "actions compared on zoo graphs.",
+        note="Trusted: Coq kernel + vm_compute, model Codec.v/Matrix.v, translators T1/T3, torch/numpy int64 operator semantics (W64.v), Python exec. "
+             "Float log2 of the automatic width assumed exact below 2^52.",
+        technique="Coq proof (bit-level, unbounded) + translation validation of generated routines + model/implementation correspondence",
+        design="7 (C02)"),
     "C20": dict(
         text="Machine-checked Coq theorems about a Gallina model of permutation_utils.py: apply/compose/inverse group laws and "
              "is_permutation for every permutation of every length (unbounded, by induction); cycle construction and "
